@@ -148,7 +148,7 @@ pub fn plan(prop: &str, tier: &str) -> Option<Plan> {
     let quick = tier == "quick";
     let base = |runs_q: u64, runs_t: u64, rule: &str| Plan {
         runs: if quick { runs_q } else { runs_t },
-        budget_s: if quick { 240.0 } else { 2400.0 },
+        budget_s: if quick { 480.0 } else { 3600.0 },
         watchdog_s: 60.0,
         level: "exploration",
         rule: rule.to_string(),
